@@ -30,6 +30,9 @@ type Result struct {
 	Foreign *Violation
 	Steps   int
 	Trace   uint64
+	// States are digests of the distinct (durable storage contents, retained
+	// version range, handle configuration) triples reached after structural steps.
+	States []string
 }
 
 // Tracer accumulates the event log digest used by the determinism self-test.
@@ -114,6 +117,14 @@ func RunOn(w *World, steps []Step, h Hooks) *Result {
 			}
 		}
 		tr.Add(w.M.Latest, w.M.First, w.M.Cur, w.M.Working.Len())
+		if w.Sim != nil && len(res.States) < 64 {
+			switch s.Op {
+			case OpSave, OpPrune, OpLVFO, OpDVF, OpReopen, OpLoad, OpExpImp, OpDiscard, OpChangeSt:
+				var st Tracer
+				st.Add(w.Sim.Digest(), w.M.First, w.M.Latest, w.M.Cur, w.Fast, w.Cache)
+				res.States = append(res.States, fmt.Sprintf("%016x", st.Sum()))
+			}
+		}
 	}
 	if h.End != nil {
 		classify(w.Guard(h.Prop, h.Prop+".oracle", "end", func() *Violation { return h.End(w) }))
